@@ -11,7 +11,7 @@ from phyclone.data.base import DataPoint
 
 ID = "C02"
 LEVEL = "proof"
-THEOREMS = ["rootR_eq_bruteforce", "rootR_iso"]
+THEOREMS = ["rootR_eq_bruteforce", "rootR_iso", "rootR_dfiso", "rootR_dfisoP", "rootR_pos"]
 BUDGET = {"quick": 90, "thorough": 600}
 RULE = ("random forests (1..7 clones quick / 1..12 thorough, up to 4 children, 1-3 samples, grid 2..8 / ..30) with dyadic "
         "likelihoods; every clone's cached vectors and the root vector of the real tree are compared with the Lean model "
